@@ -5,6 +5,9 @@ ROOT = os.path.dirname(os.path.abspath(__file__))
 ALL = ['C%02d' % i for i in range(1, 20)]
 
 CLAIMED = {
+ 'C03': dict(text="Theorems C03_frame / C03_accepts_valid: for every legal abstract packet of the independent specification layer (all 15 types, any property order, explicit zero values, every short form, strings up to 65535 bytes, multi-byte property lengths) the model of ReadPacket, under any reader schedule and followed by anything, returns a packet of the matching type whose accessor view equals the specification's view and consumes exactly the frame. Correspondence: specification-style frame generator in the harness, each frame through Go ReadPacket, the model and Spec.parse.",
+             note="The valid-frame language is defined generatively as the image of Spec.unparse over Spec.Legal; Spec.* is a hand-written reading of MQTT v5.0 and is trusted. Model/code tie by differential testing.",
+             technique="Lean 4 theorem (per-type refinement of the Go-shaped decoder against the specification unparser) + differential correspondence", ref="§7 C03"),
  'C04': dict(text="Theorems C04_unmarshal_total / C04_readPacket_xor: in the Lean model every decoder (16 dispatch targets) returns normally on every byte string and every reader, each partial Go operation being an explicit panic branch shown unreachable. The model is tied to the code by differential execution of malformed, truncated and mutated inputs (outcome class normal/panic/hang) on every run.",
              note="Kernel-checked for the model; the model/code tie is differential testing, so a decoder path no generated input reaches is covered only by the reading of the code that the model encodes.",
              technique="Lean 4 theorem over a hand-written model + differential correspondence (line protocol)", ref="§7 C04"),
